@@ -236,15 +236,20 @@ class Result:
         MarkdownStr : str
             The scheme as markdown string.
         """
+
+        def scientific(value: float | None) -> str:
+            # ``value or np.nan`` would also turn a statistic that is exactly 0.0 into nan
+            return f"{np.nan if value is None else value:.2e}"
+
         general_table_rows: list[list[Any]] = [
             ["Number of residual evaluation", self.number_of_function_evaluations],
             ["Number of residuals", self.number_of_residuals],
             ["Number of free parameters", self.number_of_free_parameters],
             ["Number of conditionally linear parameters", self.number_of_clps],
             ["Degrees of freedom", self.degrees_of_freedom],
-            ["Chi Square", f"{self.chi_square or np.nan:.2e}"],
-            ["Reduced Chi Square", f"{self.reduced_chi_square or np.nan:.2e}"],
-            ["Root Mean Square Error (RMSE)", f"{self.root_mean_square_error or np.nan:.2e}"],
+            ["Chi Square", scientific(self.chi_square)],
+            ["Reduced Chi Square", scientific(self.reduced_chi_square)],
+            ["Root Mean Square Error (RMSE)", scientific(self.root_mean_square_error)],
         ]
         if self.additional_penalty is not None and any(
             len(penalty) != 0 for penalty in self.additional_penalty
